@@ -108,7 +108,14 @@ pub fn run(sim: &Sim, prop: &str, tier: Tier) -> Outcome {
             1 + sim.draw(max_packets)
         };
         let sizes = match (tier, sim.draw(50)) {
-            (Tier::Quick, 49) => SizeCfg { large_pct: 30, huge_pct: 0 },
+            (Tier::Quick, 49) => {
+                if sim.chance(5) {
+                    // the 4096-frame limit is part of every tier, just rare in the quick one
+                    SizeCfg { large_pct: 10, huge_pct: 40 }
+                } else {
+                    SizeCfg { large_pct: 30, huge_pct: 0 }
+                }
+            }
             (Tier::Thorough, 47..=49) => SizeCfg { large_pct: 20, huge_pct: 10 },
             (Tier::Thorough, 44..=46) => SizeCfg { large_pct: 30, huge_pct: 0 },
             _ => SizeCfg { large_pct: 0, huge_pct: 0 },
